@@ -43,6 +43,9 @@ ASSUMPTIONS = [
     "fresh objects must return exactly the same centres and leave the same values; the candidates of the argmin clause "
     "are computed on such rebuilt dies; what callers do between calls (create_squares, Allocation, writing centres) is "
     "not judged, only followed (the model gets the payload values observed after such a step)",
+    "nets may list a module more than once ([A, A, B], [A, A]: the reader takes any list of two or more names): such nets are "
+    "generated (own stream) and must come back with the same pins in the same order; the model carries the nets as opaque "
+    "lists of module indices (theorem C13_fr_only_centres: nets unchanged, for any type of nets), forces are not modelled, so a repeated pin needs no model change",
     "iteration counts: the replayed stream runs at most 33 iterations (the exact Coq replay is quadratic in the iteration count); "
     "max_iter in {100, 101, 128, 150, 200} (thorough: also 255, 256, 257, 1000) is covered by an ORACLE-ONLY stream on small "
     "netlists - these cases are not compared with the model (theorems C13_* hold for every max_iter; the correspondence does "
@@ -204,6 +207,63 @@ def gen_tie_case(rng):
     mode = rng.choice(["algo", "algo", "layout"])
     return {"mode": mode, "decimal": True, "W": W, "H": H, "mods": mods, "nets": nets, "kappa": rng.choice(KAPPAS),
             "max_iter": rng.choice([0, 0, 1, 2]), "style": rng.choice(["pos", "kw"]), "ints": rng.random() < 0.5}
+
+
+PIN_FORMS = ["double", "only", "apart", "triple", "every", "copy"]
+
+
+def gen_pins_case(rng, idx):
+    """nets with REPEATED pins (a module listed more than once in a net - the reader takes any list of two or more names):
+      double  [A, A, B]        only   [A, A] (one module, twice: nothing else on the net)     apart  [A, B, A] / [A, B, C, A]
+      triple  [A, A, A, B]     every  each net of the netlist gets one of its pins again       copy   [A, B, A, B]
+    next to the ordinary nets of the general generator; weights as there (the weight follows the pins in the YAML list).
+    One call, the same call twice, or call / reread (write_yaml and back) / call; 1 in 5 force_algorithm."""
+    form = PIN_FORMS[idx % len(PIN_FORMS)]
+    op = "algo" if idx % 5 == 4 else "layout"
+    while True:
+        c = gen_case(rng, op)
+        if 2 <= len(c["mods"]) <= 5:
+            break
+    names = [m["name"] for m in c["mods"]]
+    a, b = rng.sample(names, 2)
+    rest = [x for x in names if x not in (a, b)]
+    w = float(rng.choice(WEIGHTS))
+    nets = list(c["nets"])
+    if form == "double":
+        new = [{"mods": rng.choice([[a, a, b], [b, a, a]]), "w": w}]
+    elif form == "only":
+        new = [{"mods": [a, a], "w": w}]
+        if rng.random() < 0.5:
+            new.append({"mods": [a, b], "w": float(rng.choice(WEIGHTS))})
+    elif form == "apart":
+        new = [{"mods": [a, b] + (rest[:1] if rest and rng.random() < 0.5 else []) + [a], "w": w}]
+    elif form == "triple":
+        new = [{"mods": [a, a, a, b], "w": w}]
+    elif form == "copy":
+        new = [{"mods": [a, b, a, b], "w": w}]
+    else:
+        nets = nets or [{"mods": [a, b], "w": w}]
+        new = []
+        for e in nets:
+            ms = list(e["mods"])
+            ms.insert(rng.randrange(len(ms) + 1), rng.choice(ms))
+            new.append({"mods": ms, "w": e["w"]})
+        nets = []
+    at = rng.randrange(len(nets) + 1)
+    c["nets"] = nets[:at] + new + nets[at:]
+    if op == "algo":
+        c["max_iter"] = rng.choice([1, 2, 3])
+    else:
+        c["max_iter"] = rng.choice([0, 1, 2, 3, 5, 8])
+    c = normalise(c)
+    shape = idx % 3
+    if shape == 1:
+        c["hist"] = c["hist"] + [dict(c["hist"][0])]
+    elif shape == 2 and op == "layout":
+        c["hist"] = c["hist"] + [{"op": "reread"}, dict(c["hist"][0])]
+    c["stream"] = "pins"
+    c["tag"] = form
+    return c
 
 
 HEAVY = [10, 30, 100, 100, 300, 1000]
@@ -1006,6 +1066,8 @@ def dist_key(case):
     if case.get("stream") == "exit":
         v, _, site = case["tag"].split("/")
         return f"exit/{v}/{site}/{sts[0]['op']}/iter{min(sts[0]['max_iter'], 4)}{'+' if sts[0]['max_iter'] > 4 else ''}"
+    if case.get("stream") == "pins":
+        return f"pins/{case['tag']}/{'algo' if any(s['op'] == 'algo' for s in sts) else 'layout'}/{min(len(sts), 3)}steps"
     if len(sts) == 1:
         s = sts[0]
         if s["max_iter"] >= 100:
@@ -1062,6 +1124,7 @@ def run(ctx, out, replay=None):
     n_single, n_tie, n_big, n_long, n_hist = (52, 4, 3, 1, 44) if quick else (700, 40, 24, 4, 500)
     n_longo = 24 if quick else 120
     n_exit = 24 if quick else 240
+    n_pins = 12 if quick else 120
     out.rule = ("dies k/4 (25% decimal k/10), 1-7 modules mixing soft / hard / fixed (rectangles in separate die cells) / "
                 "terminal with, without and with fixed centre, in any order; centres inside, on the border, in the corners, "
                 "at the die centre, coincident, 12% all on one vertical/horizontal line; 20% equal areas; names M0.. or "
@@ -1083,6 +1146,10 @@ def run(ctx, out, replay=None):
                 "further from the borders than from each other; square, long and tall dies; max_iter 1, 2, 3 (a few 4, 5, "
                 "8), kappa also 0.01 and 10; 1 in 12 force_algorithm, 1 in 7 the same call twice; coverage.steps_past_the_die "
                 "counts the runs whose last iteration really steps past two borders. "
+                "REPEATED PINS (own generator): 2-5 modules, next to the ordinary nets a net that lists a module more than "
+                "once - [A,A,B], [A,A] alone, [A,B,A] / [A,B,C,A], [A,A,A,B], [A,B,A,B], or every net with one of its pins "
+                "again; one call, the same call twice, or call / reread / call; 1 in 5 force_algorithm; the nets of the "
+                "returned netlist are compared with those before the call by value (pins in order, weight). "
                 "HISTORIES on one Die/Netlist object graph (about 40% of the cases): prep (create_squares | "
                 "create_initial_allocation | deepcopy | new Die on the same netlist, maybe a centre written by the caller, "
                 "then a call), again (a call, 0-2 caller steps, a second call - 55% with the very same arguments - maybe a "
@@ -1109,6 +1176,9 @@ def run(ctx, out, replay=None):
     # modules driven out of the die in the last iteration (through the corners / the borders): its own generator too
     rng_e = random.Random(f"C13-exit-{ctx.seed}")
     light += [gen_exit_case(rng_e, k) for k in range(n_exit)]
+    # nets that list a module more than once: its own generator too
+    rng_p = random.Random(f"C13-pins-{ctx.seed}")
+    light += [gen_pins_case(rng_p, k) for k in range(n_pins)]
     heavy = [gen_hist_case(rng, ["prep", "again", "again", "walk"][i % 4]) for i in range(n_hist)]
     # interleaved, so that every Coq shard gets the same mix of cheap and expensive cases
     cases, a, b = list(first), 0, 0
@@ -1130,6 +1200,7 @@ def run(ctx, out, replay=None):
         "note": "no Coq replay for these (the model comparison is the constant true): fixed modules, centres in the die, "
                 "only-centres, determinism (deep copy + rebuilt twin) and the argmin clause are checked by the direct "
                 "oracle, the candidates recomputed with the public layout function at the SAME max_iter on fresh dies"}
+    out.extra["repeated_pin_cases"] = sum(1 for c in cases if any(len(set(e["mods"])) < len(e["mods"]) for e in c["nets"]))
     out.extra["implementation_runs"] = dict(STATS)
     out.extra["steps_past_the_die"] = {
         "columns": ["layout runs (13 per force_algorithm call)", "runs whose LAST iteration steps past two borders at once "
